@@ -10,8 +10,16 @@
 //	route letx      annotated lets whose initialiser is a composite expression with ?any parts: list and
 //	                object literals, `[]`, `none`, and reads of an any-object wrapped in grouping, block,
 //	                if, match and try expressions (letx.go)
+//	                — and the same composite expressions as the base of a cast, `(<composite>) as T` (statement kind as)
+//	route seq       a dynamic value that stays reachable — a field of an any-object, or a host import declared
+//	                `any`, `[any]`, `?any`, `{ a: any }`, `[[any]]`, … — crossed twice in a row by `as` / annotated
+//	                lets into T and a one-step variation of T; the source is read again afterwards (seq.go)
 //	route host-arg  runtime.VM.SpawnSync of `fn id(x: T) -> T { probe(x); x }` with the value as argument
+//	route host-args SpawnSync / SpawnAsync / in-language `spawn` of a function with 2-3 parameters of different
+//	                types and pairwise different arguments (hostargs.go)
 //	route host-ret  runtime.VM.SpawnSync of `fn mk() -> U { <literal> }` with the host declaring return type T
+//
+// On route api the operand handed to DeepCast is read again after the cast: it must be what it was.
 //
 // and the observed outcome {admit-unchanged, admit-converted, reject-with-path, refused} is judged
 // against the reference predicates of valuni (HasType, Conforms, Convert, Offences), which share no
@@ -41,7 +49,10 @@ func (c12) Info(tier string) fw.Info {
 			"(wrong kind at every position, missing/extra field, object<->any-object, Some<->plain, shortened list) and one value of every foreign kind " +
 			"across the boundary, with allowCasts false and true (route api: all pairs; program and host routes: a seed-chosen sample that always " +
 			"contains conforming and non-conforming pairs); route letx additionally per leaf form {get,arrow,group,block,if,match,try} (quick: one seed-chosen form per backend, two per type; thorough: three per backend, six per type) " +
-			"for every type with an option at the top or directly inside a top-level list/object literal, pushing the pairs that agree with T outside their Some(..) contents, in a local let and (constant initialisers, typed values only; quick: a quarter of the types) in a global let. non-trivial = the case observed at least one admitted and at least one rejected/refused pair; " +
+			"for every type with an option at the top or directly inside a top-level list/object literal, pushing the pairs that agree with T outside their Some(..) contents, in a local let, as the base of a cast (`(<composite>) as T`, explicit; quick: the types alternate between the back ends) and (constant initialisers, typed values only; quick: a quarter of the types) in a global let; " +
+			"route seq per (backend, type T, source): source host = a builtin import whose declared type is T with `any` at a seed-chosen depth d (d=0 `any`, d=1 `[any]`/`?any`/`{a: any}`, ...) and whose value agrees with that declaration, source field (option types) = `ao.get(k)`/`ao->k` of an any-object; the same source is crossed twice (each crossing `as` or an annotated let, seed-chosen) into T and a seed-chosen one-step variation of T (other scalar, U<->?U, object->any-object at one position below the `any`), in either order, with a seed-chosen sample (quick 3, thorough 16 values) of the candidates of both types balanced over {conforms to both, one, none}; each crossing is judged on its own and the source is read again after both; " +
+			"route api also reads the operand again after every DeepCast; " +
+			"route host-args per type T0: a function with 2-3 parameters (T0 and seed-chosen types of the universe) invoked (quick 4, thorough 24 times) through SpawnSync, SpawnAsync or the in-language spawn with pairwise different arguments, every second invocation with exactly one non-conforming argument at a seed-chosen position. non-trivial = the case observed at least one admitted and at least one rejected/refused pair; " +
 			"distinct = distinct (route, lib, type, pair list)",
 		Assumptions: []string{
 			"function-typed values are outside the universe (the analyzer forbids casting them)",
@@ -49,6 +60,9 @@ func (c12) Info(tier string) fw.Info {
 			"a rejection names the offending path when its message contains the path of one of the reference offences in the notation of cast.go (`.field`, `[index]`, option steps optional); an offence at the operand itself needs no path; a missing/extra field is named by its path or by its quoted name",
 			"host boundary: a Go panic on the calling goroutine before any callee instruction executed counts as a refusal (DESIGN.md §3 C12)",
 			"program routes only carry JSON-expressible values (none, int, non-integral float, bool, str without escapes, list, object)",
+			"route seq / route api: a cast does not modify the dynamic value it is applied to — the value read again after the crossing (any-object field, host value, DeepCast operand) is identical to what it was, whether the crossing admitted or rejected it; the second crossing is judged against the reference predicates for the ORIGINAL value",
+			"route seq, source host: the host is honest — the provided value has the declared type outside its `any` parts; nothing is assumed about the parts declared `any`",
+			"route host-args: refusal as on route host-arg (no callee instruction executes); an admitted call binds parameter i to the value validated for argument i: it has type Ti, equals argument i if that already had type Ti and its permitted conversion otherwise; an invocation whose arguments all conform but need a conversion may be refused (no explicit cast at the host boundary)",
 			"route letx: the statically typed skeleton of the initialiser (list/object literal, non-option fields) agrees with T, the dynamically typed content sits inside Some(..) at option positions; a rejection without path by the interpreter is the same finding as on route let (signature route `let`)",
 		},
 		CaseTimeoutS: 120,
@@ -115,6 +129,8 @@ type payload struct {
 	// Route letx: leaf form (letx.go leafForms) and statement kind ("" = let).
 	Form string `json:"form,omitempty"`
 	Stmt string `json:"stmt,omitempty"`
+	// Route seq: where the dynamic value lives (seq.go: field | host).
+	Source string `json:"source,omitempty"`
 	// Explicit mode: exactly these pairs.
 	Pairs []pairSpec `json:"pairs,omitempty"`
 }
@@ -174,15 +190,18 @@ func hasAny(xs []string, ys []string) bool {
 	return false
 }
 
-func routeModes(route string) []bool {
+func routeModes(route, stmt string) []bool {
 	switch route {
 	case "api":
 		return []bool{false, true}
 	case "as":
 		return []bool{true}
-	default:
-		return []bool{false}
+	case "letx":
+		if stmt == "as" {
+			return []bool{true}
+		}
 	}
+	return []bool{false}
 }
 
 // routeCarries reports whether the route can transport the value at all.
@@ -216,7 +235,7 @@ func enumerate(p payload) []pairSpec {
 		if !routeCarries(p.Route, p.Stmt, p.T, v) {
 			continue
 		}
-		for _, ex := range routeModes(p.Route) {
+		for _, ex := range routeModes(p.Route, p.Stmt) {
 			if len(p.Avoid) > 0 && hasAny(constructs(p.Route, p.Lib, v, p.T, ex), p.Avoid) {
 				continue
 			}
@@ -316,6 +335,8 @@ func (c12) Cases(tier string, seed uint64) []fw.Case {
 	// Route letx (letx.go): composite initialisers with ?any parts. A separate generator keeps the
 	// cases above independent of this block.
 	rx := fw.NewRng(seed ^ 0xC12E7)
+	ra := fw.NewRng(seed ^ 0xC12A5)
+	asTypes := int(seed % 2) // which back end the first type gets alternates with the seed
 	stmts := []string{"let", "global"}
 	letxMax := 4
 	if thorough {
@@ -359,11 +380,31 @@ func (c12) Cases(tier string, seed uint64) []fw.Case {
 				}
 				continue
 			}
-			if stmt != "let" && t.K != vu.TOpt {
+			if stmt == "as" {
+				// `(<composite>) as T`: the base has the outer kind of T with ?any inside. Own generator (the
+				// other statement kinds keep their seeds); the leaf forms of the two back ends are swapped
+				// against the let, so that quick sees two forms per back end and type.
+				for li, lib := range []string{"vm", "tree"} {
+					if !thorough && (asTypes+li)%2 == 1 {
+						continue // quick: the types alternate between the back ends
+					}
+					other := "tree"
+					if lib == "tree" {
+						other = "vm"
+					}
+					for _, form := range formsOf[other] {
+						add(payload{Route: "letx", Lib: lib, T: t, Form: form, Stmt: stmt, Width: width, Avoid: avoid, Max: letxMax, Seed: ra.Next()})
+					}
+				}
+				asTypes++
+				continue
+			}
+			flow := stmt != "let" // assignment, call argument, function result
+			if flow && t.K != vu.TOpt {
 				continue
 			}
 			var tags []string
-			if stmt != "let" && flowOpen {
+			if flow && flowOpen {
 				if flowMade >= 24 {
 					continue
 				}
@@ -378,6 +419,24 @@ func (c12) Cases(tier string, seed uint64) []fw.Case {
 				}
 			}
 		}
+	}
+
+	// Route seq (seq.go): a dynamic value that stays reachable (any-object field, host import declared
+	// with `any` at depth d) crossed twice in a row; route host-args (hostargs.go): host invocations and
+	// `spawn` with several differing arguments. Own generator again.
+	rs := fw.NewRng(seed ^ 0xC125E)
+	seqMax, argsMax := 3, 4
+	if thorough {
+		seqMax, argsMax = 16, 24
+	}
+	for _, t := range types {
+		for _, lib := range []string{"vm", "tree"} {
+			add(payload{Route: "seq", Lib: lib, Source: "host", T: t, Width: width, Avoid: avoid, Max: seqMax, Seed: rs.Next()})
+			if t.K == vu.TOpt {
+				add(payload{Route: "seq", Lib: lib, Source: "field", T: t, Width: width, Avoid: avoid, Max: seqMax, Seed: rs.Next()})
+			}
+		}
+		add(payload{Route: "host-args", Lib: "vm", T: t, Width: width, Avoid: avoid, Max: argsMax, Seed: rs.Next()})
 	}
 
 	// Poisoned workloads: for every open finding a few dozen cases that contain ONLY its construct.
@@ -419,7 +478,7 @@ func (c12) Cases(tier string, seed uint64) []fw.Case {
 						if !routeCarries(route, "", t, v) {
 							continue
 						}
-						for _, ex := range routeModes(route) {
+						for _, ex := range routeModes(route, "") {
 							cs := constructs(route, lib, v, t, ex)
 							if w.construct == cTreeAny && !vu.Conforms(v, t, ex) {
 								// keep the effect isolated: the only reason to reject is the any-object
@@ -453,7 +512,7 @@ func (c12) Run(c fw.Case) (res fw.Result) {
 	var p payload
 	fw.Decode(c, &p)
 	pairs := p.Pairs
-	if pairs == nil {
+	if pairs == nil && p.Route != "seq" && p.Route != "host-args" {
 		pairs = enumerate(p)
 		pairs = sample(pairs, p.T, p.Max, p.Seed)
 	}
@@ -469,6 +528,19 @@ func (c12) Run(c fw.Case) (res fw.Result) {
 		}
 	case "host-arg", "host-ret":
 		j.host(pairs)
+	case "seq":
+		pl := planSeq(p.T, p.Source, p.Seed)
+		for _, v := range seqValues(p, pl) {
+			pairs = append(pairs, pairSpec{V: v})
+			j.seq(pl, v)
+		}
+		j.cov("kinds-" + pl.Kinds[0] + "-" + pl.Kinds[1])
+	case "host-args":
+		pl := planArgs(p)
+		for _, c := range pl.Calls {
+			pairs = append(pairs, pairSpec{V: c.Vals[0]})
+		}
+		j.hostArgs(pl)
 	default:
 		return fw.Result{Verdict: fw.Inconclusive, Why: "unknown route " + p.Route}
 	}
@@ -477,6 +549,10 @@ func (c12) Run(c fw.Case) (res fw.Result) {
 		res.Evals = 1
 	}
 	res.Hash = fw.HashOf(p.Route+p.Stmt+p.Form, p.Lib, p.T.Src(), pairs)
+	if p.Route == "seq" || p.Route == "host-args" {
+		// second type, statement kinds, parameter types and entries are functions of the seed
+		res.Hash = fw.HashOf(p.Route+p.Source, p.Lib, p.T.Src(), pairs, p.Seed)
+	}
 	res.Nontrivial = j.admitted > 0 && j.rejected > 0
 	if p.Route == "letx" && len(pairs) > 0 {
 		j.cov(stmtName(p.Stmt) + "/" + letxTop(p.T) + "/" + p.Form)
@@ -524,6 +600,9 @@ func (c12) OnCrash(c fw.Case, cr fw.Crash) fw.Result {
 // judge accumulates the verdicts of one case.
 type judge struct {
 	p        payload
+	at       string // routes with several crossings per program: which crossing is being judged
+	sigRoute string // statement kind of that crossing (as | let), for path findings shared with those routes
+	src      string // program text of the pair being judged (failure detail)
 	fails    []fw.SubViolation
 	cover    map[string]int
 	admitted int
@@ -531,19 +610,35 @@ type judge struct {
 }
 
 func (j *judge) fail(class, detail string, q pairSpec, format string, args ...any) {
+	j.failT(class, detail, q, j.p.T, format, args...)
+}
+
+// failT is fail for routes whose cases cross into several types (t = the type of this crossing).
+func (j *judge) failT(class, detail string, q pairSpec, t vu.Type, format string, args ...any) {
 	route, where := j.p.Route, j.p.Route
+	if j.at != "" {
+		where = j.p.Route + " " + j.at
+	}
+	pathClass := class == "reject-no-path" || class == "reject-wrong-path"
 	if route == "letx" {
 		where = fmt.Sprintf("letx %s/%s/%s", stmtName(j.p.Stmt), letxTop(j.p.T), j.p.Form)
-		if (class == "reject-no-path" || class == "reject-wrong-path") && stmtName(j.p.Stmt) == "let" {
-			// the rejecting code is the cast of the annotated let, exactly as on route let: a missing or
-			// wrong path is the same failure (and the same known finding) there and here
-			route = "let"
+		if st := stmtName(j.p.Stmt); pathClass && (st == "let" || st == "as") {
+			// the rejecting code is the cast of the annotated let / of `as`, exactly as on routes let / as:
+			// a missing or wrong path is the same failure (and the same known finding) there and here
+			route = st
 		}
 	}
+	if j.sigRoute != "" && pathClass {
+		// the rejecting code is the cast of this crossing's statement kind (`as` / annotated let)
+		route = j.sigRoute
+	}
 	sig := fmt.Sprintf("c12:%s:%s:%s:%s", j.p.Lib, route, class, detail)
-	why := fmt.Sprintf("[%s/%s] value %s -> type %s (explicit=%v): ", where, j.p.Lib, q.V, j.p.T.Src(), q.Explicit) + fmt.Sprintf(format, args...)
-	j.fails = append(j.fails, fw.SubViolation{Why: why, Sig: sig,
-		Detail: map[string]any{"value": q.V, "type": j.p.T, "explicit": q.Explicit, "offences": vu.Offences(q.V, j.p.T, q.Explicit)}})
+	why := fmt.Sprintf("[%s/%s] value %s -> type %s (explicit=%v): ", where, j.p.Lib, q.V, t.Src(), q.Explicit) + fmt.Sprintf(format, args...)
+	det := map[string]any{"value": q.V, "type": t, "explicit": q.Explicit, "offences": vu.Offences(q.V, t, q.Explicit)}
+	if j.src != "" {
+		det["source"] = j.src
+	}
+	j.fails = append(j.fails, fw.SubViolation{Why: why, Sig: sig, Detail: det})
 }
 
 func stmtName(s string) string {
